@@ -18,6 +18,16 @@ theorem api_refines_timer_table (iv n : Nat) (hn : 0 < n) (cs : List Call) :
   have := api_run_refines (Api.init iv n) (init_wf n hn) cs
   simpa [absApi, Api.init, Spec.Api.init, abs, TW.init] using this
 
+/-- **On a running wheel, calls with valid arguments are exactly the wheel's operations**: every such call
+returns nil (ticks return nothing) and the callbacks get what the wheel model hands out for the operation
+list `set k v ⌊d/interval⌋ / move k ⌊d/interval⌋ / remove k / drain / tick` — so `set_fires_exactly_at_due`,
+`move_fires_exactly_at_due`, `removed_never_fires`, `drain_delivers_all_once_and_empties` speak about
+SetTimer / MoveTimer / RemoveTimer / Drain as called through the public API. -/
+theorem api_valid_calls_are_wheel_ops (iv n : Nat) (cs : List Call) (hv : ∀ c ∈ cs, validCall c = true) :
+    ((Api.init iv n).run cs).map (·.2) = run (TW.init n) (cs.map (toOp iv))
+    ∧ ∀ r ∈ (Api.init iv n).run cs, r.1 = .ok ∨ r.1 = .unit :=
+  valid_run (Api.init iv n) rfl cs hv
+
 /-- **Argument validation as a decision table** (any timer mechanism, any state):
 SetTimer / MoveTimer return ErrArgument iff `delay ≤ 0` or the key is nil, else ErrClosed iff the wheel was
 stopped, else nil; RemoveTimer the same without the delay; Drain has no argument check. -/
@@ -210,6 +220,10 @@ example : (Api.init 7 10).run
        .setTimer (some 1) 5 14, .moveTimer none 14, .drain, .tick, .stop]
     = [(.errArgument, []), (.errArgument, []), (.ok, []), (.unit, []), (.unit, [(1, 5)]), (.unit, []),
        (.errClosed, []), (.errArgument, []), (.errClosed, []), (.unit, []), (.panic, [])] := by decide
+
+/-- the hypothesis of `api_valid_calls_are_wheel_ops` is satisfiable. -/
+example : ∀ c ∈ [Call.setTimer (some 1) 5 14, .tick, .moveTimer (some 1) 3, .removeTimer (some 2), .drain],
+    validCall c = true := by decide
 
 /-- delay 3 < interval 7: SetTimer fires at the next tick; MoveTimer runs the task now and it fires again. -/
 example : (Api.init 7 10).run
